@@ -767,8 +767,15 @@ class Interface:
         if args:
             if len(args) == 1 and isinstance(args[0], VRef) and isinstance(st.get(args[0]), ODict) and st.get(args[0]).items is None:
                 # a dict with computed keys: the new container holds some entries (not tracked: it is a result object)
+                # its string-keyed entries are exactly the dict's entries with string keys
                 fields = fresh('somefields', 'Fields')
                 d = fresh('somekeys', 'Keys')
+                od = st.get(args[0])
+                key = t.var('ck!', t.STR)
+                vk = t.app('VStr', t.VAL, key)
+                st.assume(t.forall([key], t.and_(t.eq(t.T(t.BOOL, 'select', (d, key)), t.T(t.BOOL, 'select', (od.has, vk))),
+                                                 t.implies(t.T(t.BOOL, 'select', (od.has, vk)), t.eq(t.T(t.VAL, 'select', (fields, key)), t.T(t.VAL, 'select', (od.get, vk))))),
+                                   pats=[[t.T(t.BOOL, 'select', (d, key))], [t.T(t.VAL, 'select', (fields, key))]]))
             elif len(args) == 1 and isinstance(args[0], VRef) and isinstance(st.get(args[0]), ODict):
                 for k, v in st.get(args[0]).items.items():
                     if k[0] != 'str':
